@@ -798,7 +798,9 @@ def oracle_c13(case, obs, res):
             if not (isinstance(resp, tuple) and len(resp) == 2):
                 bad("wrong_response", f"received {str(resp)[:100]}, expected (old, new) configuration")
         elif cmd in ("stage", "unstage"):
-            if resp != [m.obj]:
+            sids = [info_ for _, seg in executions() for (_, dev, op, info_) in seg if op == "status_new" and dev == m.obj.name]
+            ok = resp == [m.obj] or (isinstance(resp, St) and resp.dev == m.obj.name and resp.op == cmd)
+            if not ok:
                 bad("wrong_response", f"received {resp!r}, expected the device's own {cmd} result")
     # return value of the public call
     runs, _ = check_docs(obs.docs[: (obs.probe or {}).get("docs_before")], idle=False, validate=False)
